@@ -53,6 +53,19 @@ def straddling_text(L, first_len, salt=0):
     return bytes(out)
 
 
+def mixed_width_text(L, salt=0):
+    """UTF-8 text of exactly L bytes whose 1-, 2-, 3- and 4-byte characters fall across 4- and 8-byte word boundaries at
+    every phase."""
+    out = bytearray()
+    cycle = ('x', '\u65e5', '\u00e9', 'y', '\U0001f600', 'z')
+    k = salt
+    while len(out) < L:
+        c = cycle[k % len(cycle)].encode()
+        k += 1
+        out += c if len(out) + len(c) <= L else b'w'
+    return bytes(out)
+
+
 HANDOVER = [0]
 
 
@@ -304,6 +317,70 @@ def edge_characters(res, ctx, rng, arities):
                         return
 
 
+def narrow_words(res, ctx, rng, arities):
+    """The same texts as an ILP32 kernel with 64-bit records (arm64_32) lays them out: the kernel copies a path, a global
+    string or a thread name through `long` / `uintptr_t` words, so every 64-bit argument word carries 4 text bytes and 4
+    zero bytes (12 path bytes in a lookup's first record, 16 in the others; at most 92 path bytes).  The zero bytes are
+    padding wherever they lie: the text is what remains, for every length and every split."""
+    one = sorted(n for n, a in arities.items() if a == 1) or ['BSC_open']
+    two = sorted(n for n, a in arities.items() if a and a >= 2 and n not in ('BSC_symlinkat', 'BSC_posix_spawn')) or ['BSC_rename']
+    idx = 0
+    for L in range(0, 93):
+        for cls in ('ascii', 'straddle', 'mixed widths'):
+            idx += 1
+            if not ctx.mine(idx):
+                continue
+            text = ascii_text(L, 2) if cls == 'ascii' else straddling_text(L, 12) if cls == 'straddle' else mixed_width_text(L, L)
+            vn = 0x7100 + L
+            seq = H.lookup(vn, text, word=4)
+            check_lookup_history(res, H.materialize(H.on_thread(7, seq)), [(text.decode(), vn)],
+                                 f'stand-alone {cls} {L}B, 4 text bytes per argument word')
+            mixed = []
+            for a in seq:
+                mixed.append(a)
+                mixed += H.unrelated(rng, rng.randrange(0, 3))
+            check_lookup_history(res, H.materialize(H.on_thread(7, mixed)), [(text.decode(), vn)],
+                                 f'unrelated records between chunks {cls} {L}B, 4 text bytes per argument word', rng=rng)
+            name = one[(L + (cls == 'ascii')) % len(one)]
+            check_lookup_history(res, H.materialize(H.on_thread(7, H.gen_syscall(rng, name, seq))), [(text.decode(), vn)],
+                                 f'{name} of a {L}-byte path, 4 text bytes per argument word', enclosing=name, arity=arities.get(name))
+            name = two[(L + (cls == 'ascii')) % len(two)]
+            other = ascii_text(rng.randrange(0, 93), 9)
+            check_lookup_history(res, H.materialize(H.on_thread(7, H.gen_syscall(rng, name, seq + H.lookup(vn + 1, other, word=4)))),
+                                 [(text.decode(), vn), (other.decode(), vn + 1)],
+                                 f'{name} of a {L}-byte and a {len(other)}-byte path, 4 text bytes per argument word',
+                                 enclosing=name, arity=arities.get(name))
+            res.count('narrow_word_lookups')
+            if L <= 63:
+                events = H.materialize(H.on_thread(9, H.thread_name(text, word=4) + H.global_string(900 + L, text, word=4)))
+                parser, traces, exc = collect(events)
+                got_n = [t.name for _, t in traces if type(t).__name__ == 'TraceStringThreadname']
+                got_s = [t.vstr for _, t in traces if type(t).__name__ == 'TraceStringGlobal']
+                res.count('narrow_word_strings')
+                if exc is not None or got_n != [text.decode()] or got_s != [text.decode()]:
+                    res.violation('c08-name-reassembly' if got_s == [text.decode()] else 'c08-string-reassembly',
+                                  f'{L}-byte text, 4 text bytes per argument word: thread name {got_n}, global string {got_s}, '
+                                  f'expected {text.decode()!r}' + (f' ({exc[1]!r})' if exc else ''), case_of(events))
+                    return
+
+
+    for L in range(64, 300, 5):
+        for cls in ('straddle', 'mixed widths'):
+            idx += 1
+            if not ctx.mine(idx):
+                continue
+            text = straddling_text(L, 8) if cls == 'straddle' else mixed_width_text(L, L)
+            events = H.materialize(H.on_thread(9, H.global_string(5000 + L, text, word=4)))
+            parser, traces, exc = collect(events)
+            got_s = [t.vstr for _, t in traces if type(t).__name__ == 'TraceStringGlobal']
+            res.count('narrow_word_strings')
+            if exc is not None or got_s != [text.decode()] or len(traces) != 1:
+                res.violation('c08-string-reassembly', f'{L}-byte global string, 4 text bytes per argument word: {len(traces)} '
+                              f'trace(s), global string {got_s}, expected {text.decode()!r}' + (f' ({exc[1]!r})' if exc else ''),
+                              case_of(events))
+                return
+
+
 def scale_lookups(res, ctx, rng, arities):
     """Lookups far into a long window: a call whose thread produces n further records between its START and a lookup (or
     between the chunks of one lookup) still shows that lookup.  Rungs step over 2^16 (vlib/histories.py)."""
@@ -509,6 +586,7 @@ def run(ctx):
         identical_lookups(res, ctx, rng, arities)
     scale_lookups(res, ctx, rng, arities)
     edge_characters(res, ctx, rng, arities)
+    narrow_words(res, ctx, rng, arities)
     string_workload(res, ctx, rng)
     reuse_workload(res, ctx, rng)
     if ctx.shard == 0:
@@ -526,6 +604,8 @@ def run(ctx):
     res.require('identical_lookup_windows', 8)
     res.require('scale_lookup_windows', 4)
     res.require('edge_character_texts', 2000)
+    res.require('narrow_word_lookups', 20)
+    res.require('narrow_word_strings', 20)
     res.require('lookups_with_boundary_vnode_id', 10)
     return res
 
